@@ -449,6 +449,22 @@ def _r11a_output(P, R):
 
 
 # ------------------------------------------------------------------------------------------------------------------ R11-b
+_SETLIKE = re.compile(r"(^|::)(IndexSet|HashSet|BTreeSet|IndexMap|HashMap|BTreeMap)$")
+
+
+def _set_passages(nodes):
+    """operations among `nodes` that build a set / map (by result type): a sequence that passes through one keeps one element per
+    key — a lossy step on the way of a merged component, whatever the key's notion of equality"""
+    out = []
+    for n in nodes:
+        if n.get("k") in ("MethodCall", "Call"):
+            h = _head_args(n.get("t") or "")[0]
+            if _SETLIKE.search(h) and (n.get("k") == "MethodCall" and n.get("method") in ("collect", "into", "unique", "extend")
+                                       or (call_name(n) or "").endswith(("from_iter", "::from", "::new", "::with_capacity", "::default"))):
+                out.append("%s into %s" % (n.get("method") or short(call_name(n)), h.split("::")[-1]))
+    return out
+
+
 def _strip_deref(e):
     e = _strip(e)
     while e is not None and e.get("k") == "Unary" and e.get("op") in ("Deref", "*"):
@@ -609,7 +625,7 @@ def r11b(P, R):
                 names_ = [c["method"] for c in chain]
                 chains = [c for c in chain if c["method"] == "chain"]
                 ok_shape = len(chains) == 1 and names_[-1] == "collect"
-                bad = [m for m in names_ if m in LOSSY_OR_REORDERING]
+                bad = [m for m in names_ if m in LOSSY_OR_REORDERING] + _set_passages(subnodes(fld["e"]))
                 if bad:
                     R.violated("R11-b", "%s:concat:%s" % (tag, name),
                                "%s applies `%s` to the merged `%s`: the result is not original ++ extensions" % (f.path, bad, name), loc=f.loc())
@@ -641,12 +657,13 @@ def r11b(P, R):
         if h.kind not in ("Fn", "AssocFn"):
             continue
         pushes = [n for n in h.walk() if n.get("k") == "MethodCall" and n["method"] == "push"]
-        bad = [n["method"] for n in h.walk() if n.get("k") == "MethodCall" and n["method"] in LOSSY_OR_REORDERING]
+        bad = [n["method"] for n in h.walk() if n.get("k") == "MethodCall" and n["method"] in LOSSY_OR_REORDERING] + _set_passages(h.walk())
         out = h.sig_output or ""
         k = len(_split_top(out[1:-1])) if out.startswith("(") and out.endswith(")") else None
         key = h.name + ":pushes"
         if bad:
-            R.violated("R11-b", key, "%s, which the merge functions feed the extensions through, reorders or drops elements (%s)" % (h.path, bad), loc=h.loc())
+            R.violated("R11-b", key, "%s, which the merge functions feed the components through, reorders or drops elements (%s): the merged component is no longer "
+                       "original ++ extensions" % (h.path, bad), loc=h.loc())
         elif k and pushes:
             R.check("R11-b", key, len(pushes) == k, "%d components pushed per element" % k,
                     "%s pushes %d components per element but returns %d collections" % (h.path, len(pushes), k), loc=h.loc())
@@ -848,6 +865,20 @@ def _r11d_set(P, R, rg):
             R.violated("R11-d", "set_original:dup-only", "%s fails on a path where no original is registered yet (%s)"
                        % (so.path, "the error sits in the branch for an absent original" if absent else "the error is unconditional"), loc=so.loc())
         else:
+            # presence tested through the wrong component: the guards of the failure read the entry, but never the component whose
+            # presence *is* the failure condition
+            read = set()
+            for c in conds:
+                gx = c[1].get("cond") if c[0].startswith("if") else (c[1].get("init") if c[0] == "let-else" else c[1]["scrut"])
+                read |= {x[2] for x in pv.atoms(gx) if x[0] == "field" and x[1] == rg.entry}
+            wrong = bool(read) and rg.orig_field not in read
+            if wrong:
+                msg = ("%s decides whether a definition is already registered by looking at `%s` of the entry, never at `%s`: an entry "
+                       "that holds a definition is not recognised as such (a second definition overwrites the first without "
+                       "DuplicateOriginal), or one that holds none is rejected" % (so.path, "`, `".join(sorted(read)), rg.orig_field))
+                R.violated("R11-d", "set_original:dup-only", msg, loc=so.loc())
+                R.violated("R11-d", "set_original:dup-always", msg, loc=so.loc())
+                continue
             R.undecided("R11-d", "set_original:dup-only", "the condition under which %s fails is not a recognised presence test of `%s`" % (so.path, rg.orig_field), loc=so.loc())
         # ... and always then
         if not present:
@@ -1006,6 +1037,40 @@ def r11e(P, R):
             else:
                 R.holds("R11-e", key, "order-preserving use `%s` on a collection of %s" % (m, el.split("::")[-1]), loc=f.loc())
     R.floor("R11-e", "operations on extension collections", n, 3)
+    _guarded(R, "R11-e", "anchor:input-order", _r11e_input, P, R)
+
+
+def _r11e_input(P, R):
+    """the resolver's input lists definitions and extensions in file / document order, which is the order extensions are merged in:
+    the methods of the input document type that combine documents (merge, Extend) keep the order of what they are given"""
+    DOC, ITEM = TS + "TypeSystemOrExtensionDocument", TS + "TypeSystemDefinitionOrExtension"
+    fns = [f for f in P.fns.values() if f.self_adt == DOC and not f.derived and "::tests" not in f.path and f.kind in ("Fn", "AssocFn")]
+    n = 0
+    for f in sorted(fns, key=lambda x: x.path):
+        for c in f.walk():
+            if c.get("k") == "MethodCall":
+                el = next((e for e in (elem_type(c["recv"].get(k_) or "") for k_ in ("ta", "t")) if e in (DOC, ITEM)), None)
+                if el is None:
+                    continue
+                n += 1
+                key = "input-order:%s:%s" % (f.name, c["method"])
+                if c["method"] in LOSSY_OR_REORDERING:
+                    R.violated("R11-e", key, "%s applies `%s` to the %s it combines: the resolver no longer sees definitions and extensions "
+                               "in document order" % (f.path, c["method"], el.split("::")[-1]), loc=f.loc())
+                else:
+                    R.holds("R11-e", key, "order-preserving `%s`" % c["method"], loc=f.loc())
+            elif c.get("k") == "Call" and (call_name(c) or "") in ("core::mem::swap", "core::mem::replace"):
+                tys = [peel_ty(a.get("t") or "") for a in c["args"]]
+                if not any(t == DOC or elem_type(t) in (DOC, ITEM) for t in tys):
+                    continue
+                n += 1
+                key = "input-order:%s:%s" % (f.name, call_name(c).split("::")[-1])
+                if call_name(c).endswith("swap"):
+                    R.violated("R11-e", key, "%s exchanges the document it accumulates with another one (`mem::swap`): what was accumulated "
+                               "from earlier files ends up after a later file, so extensions are merged out of file order" % f.path, loc=f.loc())
+                else:
+                    R.undecided("R11-e", key, "%s replaces a document buffer with `mem::replace`; the resulting order is not decided" % f.path, loc=f.loc())
+    R.floor("R11-e", "operations that combine input documents", n, 1)
 
 
 RULES = [("R11-a", r11a), ("R11-b", r11b), ("R11-d", r11d), ("R11-e", r11e)]
